@@ -93,6 +93,22 @@ def make_case(rng, i, ctx):
               'points': points, 'y': [project_obs(o) for o in ys], 'W': W, 'priors': pri, 'res': rec}]
     if i % 2 == 0:
         cases.append(frame_event(cid + '-frame', 'least_squares leaves the data observables as they were', before, ys))
+    if i % 3 == 1:
+        # the same request started from its own solution (re-fitting from a previous result): the same fit, judged in full once more
+        kw2 = dict(kw, initial_guess=[float(p.value) for p in res.fit_parameters])
+        try:
+            res_b = _quiet(lambda: pe.fits.least_squares(x, ys, f, **kw2))
+            pri_b = []
+            if priors is not None:
+                for k, po in res_b.priors.items():
+                    po.gamma_method()
+                    pri_b.append({'pos': int(k) + 1, 'o': project_obs(po), 'v': rat(float(po.value)), 'dv': rat(float(po.dvalue)), 's': priors[k]})
+            rec_b = fitgen.fit_result_record(res_b, L is not None)
+            rec_b['ncov'] = rec['ncov']
+            cases.append(dict(cases[0], id=cid + '-refit', priors=pri_b, res=rec_b))
+        except Exception as e:  # noqa: BLE001
+            if 'did not converge' not in str(e):
+                cases.append({'id': cid + '-refit', 'ev': 'fit', 'mode': 'fit', 'res': {'k': 'exc', 't': type(e).__name__}})
     ctx.nontrivial.add((name, kind, pri_form, corr_mode, numgrad))
     # shift one datum and re-fit (independent data: the sensitivity dp/dy_k is the ratio of fluctuations on the ensemble of point k)
     if kind == 'independent' and priors is None and not numgrad and rng.random() < 0.7:
